@@ -125,11 +125,13 @@ pub struct ListenerCfg {
     pub auth_cookie_expiry: u64,
     /// this many distinct (idle) addresses are already tracked by the limiter when the listener starts
     pub limiter_prefill: usize,
+    /// the limiter is already older than two windows when those addresses visit (they are fresh, it is not)
+    pub limiter_prefill_fresh: bool,
 }
 
 impl Default for ListenerCfg {
     fn default() -> Self {
-        Self { proxy: None, limiter: None, timeout: Duration::from_secs(10), secret: None, max_packet_length: 10_000, auth_cookie_expiry: 21_600, limiter_prefill: 0 }
+        Self { proxy: None, limiter: None, timeout: Duration::from_secs(10), secret: None, max_packet_length: 10_000, auth_cookie_expiry: 21_600, limiter_prefill: 0, limiter_prefill_fresh: false }
     }
 }
 
@@ -170,6 +172,9 @@ pub fn start_listener(cfg: &ListenerCfg, script: NetScript, workers: usize) -> R
                 let mut listener = Listener::new(ad2.clone(), ad2.clone(), ad2.clone(), ad2.clone(), ad2.clone(), ad2.clone())
                     .with_rate_limiter(cfg2.limiter.map(|(d, l)| {
                         let mut rl = RateLimiter::<IpAddr>::new(d, l);
+                        if cfg2.limiter_prefill_fresh {
+                            std::thread::sleep(d * 2 + Duration::from_millis(5));
+                        }
                         for i in 0..cfg2.limiter_prefill {
                             rl.enqueue(IpAddr::V6(std::net::Ipv6Addr::from(0x2001_0db8_0000_0000_0000_0000_0000_0000u128 + i as u128)));
                         }
